@@ -111,6 +111,27 @@ def make_histories(tier, rng):
         for sp in ("dotslash", None):
             hs.append([dict(st), dict(op="get", name="Thumbnails/thumbnail.png", spell=sp), dict(op="set", name="Thumbnails/thumbnail.png", variant=1, spell=sp),
                        dict(op="del", name="Thumbnails/thumbnail.png", spell=sp), dict(op="save", packaging="zip", target="buf", pretty=False), dict(op="reopen", r=1)])
+    # comments / processing instructions / DOCTYPE standing OUTSIDE the root element of an XML part (packages built with zipfile that
+    # hold them; parts set with them): read or not read, parsed or not, every packaging, plain and pretty, clone
+    XMLS = ["content.xml", "styles.xml", "meta.xml", "settings.xml"]
+    for base in small[:2]:
+        for buf in (False, True):
+            for dt in (False, True):
+                for pk, tg, pty in (("zip", "buf", False), ("zip", "path", True), ("folder", "path", False), ("folder", "path", True), ("xml", "buf", None)):
+                    B = dict(op="buildopen", base=base, extra=[], dress=XMLS, doctype=dt, buf=buf)
+                    SV = dict(op="save", packaging=pk, target=tg, pretty=pty)
+                    hs.append([dict(B), dict(op="touch", name="styles.xml"), dict(op="get", name="meta.xml"), dict(op="edit", name="content.xml", how="par", arg="x"),
+                               dict(SV), dict(op="reopen", r=1), dict(op="touch", name="content.xml"), dict(op="touch", name="settings.xml")] if pk != "xml" else
+                              [dict(B), dict(op="touch", name="styles.xml"), dict(SV)])
+                hs.append([dict(op="buildopen", base=base, extra=[], dress=XMLS, doctype=dt, buf=buf), dict(op="touch", name="styles.xml"), dict(op="clone"),
+                           dict(op="touch", name="styles.xml"), dict(op="touch", name="content.xml"), dict(op="save", packaging="zip", target="buf", pretty=False), dict(op="reopen", r=1)])
+    for st in starts[:2]:
+        for v in (4, 6):
+            for pk, tg, pty in (("zip", "buf", False), ("zip", "buf", True), ("folder", "path", False), ("folder", "path", True)):
+                hs.append([dict(st)] + [dict(op="set", name=n, variant=v) for n in XMLS] + [dict(op="touch", name="styles.xml"), dict(op="touch", name="content.xml"),
+                          dict(op="save", packaging=pk, target=tg, pretty=pty), dict(op="reopen", r=1), dict(op="touch", name="meta.xml"), dict(op="touch", name="settings.xml")])
+    hs += pkglib.flat_image_histories(S, Tm["text"], tier)
+    hs += pkglib.resave_histories([starts[0], dict(op="open", src=small[5], buf=False)], rng)
     # F35: a package without manifest.rdf, opened by path / by buffer; the user provides one and lists it; save
     import zipfile
     nordf = [s for s in small if "manifest.rdf" not in zipfile.ZipFile(s).namelist()][:2]
@@ -144,8 +165,9 @@ def run(tier, seed, replay=None):
         PROP, "chk03", LAYER, make_histories, key_of, tier, seed, replay,
         trusted_base=pkglib.PKG_TRUSTED,
         rule="histories: every template and every sample (path-opened = lazy, buffer-opened) followed by random ops over %s; unmodified open/save/reopen/save cycles of every sample in zip (buffer, path) and folder packaging; in-place save of a path-opened copy after partial reads; edge stream (bytes set for an XML part read / fetched / not read before, folder reopen + set_part, flat XML). One Coq evaluation per executed operation. non-trivial = state-changing op or a save; distinct = distinct (op, pre-state)" % sorted(WEIGHTS),
-        assumptions=["XML parts are compared as infosets (C14N) with the meta:generator text masked; after a pretty save by the layout-insensitive projection of C11",
+        assumptions=["XML parts are compared as infosets (C14N with comments, plus the comments / processing instructions outside the root element; the DOCTYPE is not compared) with the meta:generator text masked at saves (nothing masked at a clone); after a pretty save by the layout-insensitive projection of C11",
                      "directory entries are not parts", "in-place saves are exercised for zip packaging only (folder time stamps have one-second resolution)"],
+        extra_prefixes=("clone/", "save-"),
         nontrivial_kinds=("get", "touch", "edit", "set", "del", "addfile", "save", "clone", "open", "new"))
 
 
